@@ -32,6 +32,8 @@
 #include <thread>
 #include <vector>
 
+#include <sys/mman.h>
+
 #include <tlx/algorithm/parallel_multiway_merge.hpp>
 #include <tlx/sort/parallel_mergesort.hpp>
 
@@ -211,6 +213,51 @@ int main(int argc, char** argv) {
     std::string line;
     while (std::getline(in, line)) {
         if (line.empty() || line[0] == '#') continue;
+#ifndef C07_FAT
+        if (line.compare(0, 5, "huge ") == 0) {
+            // "huge entry split p os mwma size k  L_0 h_0 key.. L_1 h_1 key.. .."  -- HUGE TOTALS: sequence s has L_s elements
+            // (up to several 2^30) of type uint8_t in a sparse MAP_NORESERVE mapping; only its first h_s elements are
+            // written (value 255 - key, keys ascending 0..254), the rest is the zero page (key 255).  Sorted descending,
+            // merged with std::greater<uint8_t>, forced parallel, plain output with guard zones.  Output as keys.
+            std::istringstream hs(line.substr(5));
+            long entry, split, p, os, mwma, size, k;
+            hs >> entry >> split >> p >> os >> mwma >> size >> k;
+            using T = uint8_t;
+            std::vector<std::pair<T*, T*>> orig;
+            std::vector<std::pair<void*, size_t>> maps;
+            for (long s = 0; s < k; ++s) {
+                long L, h; hs >> L >> h;
+                size_t bytes = static_cast<size_t>(L) + 1;
+                void* m = mmap(nullptr, bytes, PROT_READ | PROT_WRITE, MAP_PRIVATE | MAP_ANONYMOUS | MAP_NORESERVE, -1, 0);
+                if (m == MAP_FAILED) { perror("mmap"); return 3; }
+                T* b = static_cast<T*>(m);
+                for (long i = 0; i < h; ++i) { long key; hs >> key; b[i] = static_cast<T>(255 - key); }
+                maps.push_back({m, bytes});
+                orig.push_back({b, b + L});
+            }
+            tlx::parallel_multiway_merge_force_sequential = false;
+            tlx::parallel_multiway_merge_force_parallel = true;
+            tlx::parallel_multiway_merge_oversampling = static_cast<size_t>(os);
+            std::vector<std::pair<T*, T*>> work(orig);
+            std::vector<T> buf(static_cast<size_t>(size) + 2 * GUARD, 0xEE);
+            T* tgt = buf.data() + GUARD;
+            T* ret = call_entry(entry, work.begin(), work.end(), tgt, static_cast<std::ptrdiff_t>(size), std::greater<T>(),
+                                static_cast<tlx::MultiwayMergeAlgorithm>(mwma), static_cast<tlx::MultiwayMergeSplittingAlgorithm>(split),
+                                static_cast<size_t>(p), 0);
+            long damage = 0;
+            for (long i = 0; i < GUARD; ++i) { if (buf[i] != 0xEE) ++damage; if (buf[GUARD + size + i] != 0xEE) ++damage; }
+            std::ostringstream o;
+            o << "ret=" << (ret - tgt) << " cur=";
+            for (long s = 0; s < k; ++s) o << (s ? "," : "") << (work[s].first - orig[s].first);
+            o << " out=";
+            for (long i = 0; i < size; ++i) o << (i ? "," : "") << (255 - static_cast<int>(tgt[i])) << ":0:0";
+            o << " win=? w=" << (damage ? "oob" + std::to_string(damage) : std::string("ok")) << " fp=0";
+            puts(o.str().c_str());
+            fflush(stdout);
+            for (auto& m : maps) munmap(m.first, m.second);
+            continue;
+        }
+#endif
         if (line.compare(0, 3, "ms ") == 0) {
             // "ms stable p split os n key.."  -> (stable_)parallel_mergesort of n elements (key, 0, index)
             std::istringstream ms(line.substr(3));
